@@ -64,6 +64,36 @@ def observe(real, s, v_abs, v_real, nprobes, rng):
     return ev
 
 
+def subclass_cases(nprobes, rng):
+    import collections
+    import enum
+    import http
+    import d42
+
+    class Colour(str, enum.Enum):
+        RED = "red"
+
+    members = [http.HTTPStatus.OK, am.MyInt(7), am.MyStr("z"), Colour.RED, am.MyFloat(0.5), am.MyBytes(b"a"),
+               collections.OrderedDict(a=1), am.MyList([1]), am.MyDict({"a": 1})]
+    bare_any = {"t": "any", "types": []}
+    bare_list = {"t": "list", "type": [], "elems": [], "len": [], "min_len": [], "max_len": []}
+    bare_dict = {"t": "dict", "keys": []}
+    relaxed = {"t": "dict", "keys": [[{"key": {"k": "ellipsis"}, "val": {"k": "ellipsis"}, "opt": False}]]}
+    out = []
+    for m in members:
+        for s, wrap in ((bare_any, lambda x: x), (bare_any, lambda x: [x]), (bare_list, lambda x: [x, x]),
+                        (bare_dict, lambda x: {"k": x}), (relaxed, lambda x: {"k": [x]})):
+            v_real = wrap(m)
+            real = am.g_schema(s)
+            ev = observe(real, s, {"k": "none"}, v_real, 0, rng)
+            ev["v"] = {"k": "obj", "cls": type(m).__name__, "isa": [], "base": []}
+            ev["rep"], ev["r"], ev["probes"], ev["model"] = False, [], [], False
+            for g in ev["gens"]:
+                g["rep"], g["w"] = False, []
+            out.append(ev)
+    return out
+
+
 def run(chk, prop):
     core.setup_repo_path()
     quick = chk.tier == "quick"
@@ -110,15 +140,22 @@ def run(chk, prop):
             continue
         ev = observe(real, s, v_abs, v_real, nprobes, chk.rng)
         ev["id"] = len(events) + 1
+        ev["model"] = True
         events.append(ev)
         chk.count("refused" if ev["exc"] else "substituted")
         chk.count("seed_values" if is_seed else "edited_values")
         chk.count("schema_" + s["t"])
+    # code -> spec only: members that are instances of *subclasses* of the built-in scalar and
+    # container types (an IntEnum member, a str subclass, an OrderedDict) at untyped positions
+    for ev in subclass_cases(nprobes, chk.rng):
+        ev["id"] = len(events) + 1
+        events.append(ev)
+        chk.count("subclass_member_cases")
     chk.require(len(events) >= 5000, "fewer than 5000 substitutions replayed (%d)" % len(events))
     chk.require(chk.counts.get("substituted", 0) >= 1500 and chk.counts.get("refused", 0) >= 1000,
                 "outcome mix too thin: %r" % chk.counts)
     slim = [{k: e[k] for k in ("id", "s", "v", "exc", "rep", "r", "conf_sv", "conf_rv", "gens", "probes",
-                               "again")} for e in events]
+                               "again", "model")} for e in events]
     verdicts = chk.validate_events("Trace_Sub", slim, extra_constants={"Prop": '"%s"' % prop})
     chk.absorb(events, verdicts, describe)
     oks = [e for e in events if not e["exc"]]
